@@ -1,0 +1,16 @@
+//go:build verif
+
+package keystore
+
+import "sync/atomic"
+
+// verification hook (C18): counts entries into the keystore signing entry points
+// (SignHash, SignHashAllowed, SignHashOK, SignTx, SignHashWithPassphrase,
+// SignTxWithPassphrase). Only compiled with -tags verif.
+
+var verifSignCounter uint64
+
+// VerifSignCount returns the number of times a keystore signing entry point was entered.
+func VerifSignCount() uint64 { return atomic.LoadUint64(&verifSignCounter) }
+
+func verifSigned() { atomic.AddUint64(&verifSignCounter, 1) }
